@@ -114,6 +114,16 @@ func VerifH_cancel() {
 		}
 		r = r.WithContext(ctx)
 		w := newFakeRW()
+		if vfBool() {
+			// the client cancels after the first reply; nothing makes the writes fail, only the call's
+			// context tells: the second send must still be refused
+			srv.afterFirstSend = cancel
+			mux.ServeHTTP(w, r)
+			vfCheck(srv.calls == 1, "stream handler not invoked exactly once")
+			vfCheck(srv.sendErr != nil, "a handler that keeps sending after the client cancelled was not released with an error")
+			vfCover("send-after-cancel")
+			return
+		}
 		w.okWrites = vfLen(3)
 		w.onFail = cancel
 		mux.ServeHTTP(w, r)
